@@ -48,9 +48,10 @@ type c08TCtx struct {
 }
 
 type c08TCase struct {
-	Lims []c08TLim `json:"lims"`
-	Ctxs []c08TCtx `json:"ctxs,omitempty"`
-	Ops  []c08TOp  `json:"ops"`
+	Store int       `json:"store,omitempty"` // how the shared *redis.Redis is built: c08StoreNode ...
+	Lims  []c08TLim `json:"lims"`
+	Ctxs  []c08TCtx `json:"ctxs,omitempty"`
+	Ops   []c08TOp  `json:"ops"`
 }
 
 // ---- reference bucket in whole caller seconds (the Redis side), from the statement ----
@@ -257,7 +258,7 @@ const (
 )
 
 func c08TokenInterp(t *testing.T, c c08TCase, rule int) (v kit.Verdict) {
-	srv := c08GetServer()
+	srv := c08GetServerFor(c.Store % c08StoreKinds)
 	srv.reset()
 	c08Seq++
 	var fail string
@@ -266,8 +267,9 @@ func c08TokenInterp(t *testing.T, c c08TCase, rule int) (v kit.Verdict) {
 	ntOutageDeny, ntRecovered := false, false
 	stalled := false
 	ctxRace := false
+	classes["store-"+c08StoreNames[c.Store%c08StoreKinds]] = true
 	res := kit.Bubble(t, func() {
-		store := redis.New(srv.addr)
+		store := redis.New(srv.addr, c08StoreOpts(c.Store%c08StoreKinds)...)
 		ctxs := make([]context.Context, len(c.Ctxs))
 		for i, x := range c.Ctxs {
 			var cancel context.CancelFunc
@@ -927,6 +929,9 @@ func c08TokenGen(rt *rapid.T) c08TCase {
 			for j := 0; j < o.C; j++ {
 				b.allow(sec, serverMs, int64(o.N))
 			}
+			if k := c.Lims[l].Key; k == 13 || k == 14 {
+				o.C = 300 // 70 kB keys: 140 kB per request
+			}
 			rallows++
 			c.Ops = append(c.Ops, o)
 		case "mallow":
@@ -1045,7 +1050,7 @@ func c08OutageGen(rt *rapid.T) c08TCase {
 }
 
 func c08OutageGenModes(rt *rapid.T, modes []string, concurrent bool) c08TCase {
-	c := c08TCase{Lims: c08GenLims(rt, 3, false)}
+	c := c08TCase{Lims: c08GenLims(rt, 3, false), Store: rapid.IntRange(0, c08StoreKinds-1).Draw(rt, "store")}
 	const epoch = int64(946684800)
 	nl := len(c.Lims)
 	model := c08NewBuckets(c.Lims)
